@@ -136,8 +136,9 @@ type leaf struct {
 }
 
 type walker struct {
-	l      *Lang
-	leaves []leaf
+	l       *Lang
+	globals []string
+	leaves  []leaf
 	objs   map[*Obj]int
 	order  []*Obj
 }
@@ -172,6 +173,8 @@ func (w *walker) walk(v Val, where string, at token.Pos) {
 	case Fold:
 		w.walk(x.Acc, where+"(fold)", at)
 		w.walk(x.List, where+"(fold)", at)
+	case Global:
+		w.globals = append(w.globals, x.Name)
 	}
 }
 
@@ -441,7 +444,15 @@ func (l *Lang) Linear(shapes map[string]*Shape) *report.RuleResult {
 		for _, p := range a.Paths {
 			res.Count("paths", 1)
 			w := l.contents(p)
-			reported := len(p.St.Events) > 0 // a semantic error is delivered on this path: dropping text is allowed, duplicating is not
+			reported := false // a semantic error is delivered on this path: dropping text is allowed, duplicating is not
+			for _, ev := range p.St.Events {
+				if ev.Kind == "report" {
+					reported = true
+				}
+			}
+			for _, g := range w.globals {
+				bad[pkey+"/global:"+g] = fmt.Sprintf("package-level object %s is placed in the tree on path [%s]: the same node object would sit at several positions of one tree and be shared between parses", g, pathLabel(p))
+			}
 			whole := map[int]int{}
 			parts := map[int]map[string]int{}
 			partT := map[int]map[string]bool{}
@@ -695,6 +706,44 @@ func (l *Lang) Order(shapes map[string]*Shape) *report.RuleResult {
 					bad[pkey+"/$$/list"] = msg
 				}
 			}
+			// several updates of the same existing object: their fields among each other
+			groups := map[string]*Obj{}
+			for _, u := range p.St.Updates {
+				if u.F == "Position" || u.F == "Value" || isCarrier(u.T) || u.Append {
+					continue
+				}
+				if _, direct := u.Base.(Sym); !direct {
+					continue
+				}
+				gk := u.Base.String() + "|" + u.T
+				if groups[gk] == nil {
+					groups[gk] = &Obj{TName: u.T, Fields: map[string]Val{}}
+				}
+				groups[gk].Fields[u.F] = u.Val
+			}
+			for gk, o := range groups {
+				var prev Range
+				prev.Empty = true
+				prevSlot := ""
+				for _, slot := range l.slots(o.TName) {
+					r := Range{Empty: true}
+					for _, f := range slot {
+						if fv, ok := o.Fields[f]; ok {
+							r.merge(l.rangeOf(fv))
+						}
+					}
+					if r.Empty {
+						continue
+					}
+					if !prev.Empty && prev.Max.After(r.Min) {
+						bad[fmt.Sprintf("%s/updates:%s/%s", pkey, gk, slot[0])] = fmt.Sprintf("field %s of the %s coming from %s receives %s..%s but the earlier field %s receives %s..%s in the same action: declaration order is not source order on path [%s]", slot[0], o.TName, strings.SplitN(gk, "|", 2)[0], r.Min, r.Max, prevSlot, prev.Min, prev.Max, pathLabel(p))
+					}
+					if prev.Empty || prev.Max.Less(r.Max) {
+						prev.merge(r)
+					}
+					prevSlot = slot[0]
+				}
+			}
 			// updates of existing objects
 			for _, u := range p.St.Updates {
 				if u.F == "Position" || u.F == "Value" {
@@ -851,8 +900,9 @@ func (l *Lang) members(o *Obj, p *Path, a *Action, shapes map[string]*Shape) []m
 			visit(x.V, cert)
 		case *Obj:
 			ex := spanExempt[x.TName]
+			seps := l.separatorFields(x.TName)
 			for f, fv := range x.Fields {
-				if f == "Position" || ex[f] != "" {
+				if f == "Position" || ex[f] != "" || seps[f] {
 					continue
 				}
 				visit(fv, cert)
@@ -863,14 +913,26 @@ func (l *Lang) members(o *Obj, p *Path, a *Action, shapes map[string]*Shape) []m
 		}
 	}
 	ex := spanExempt[o.TName]
+	seps := l.separatorFields(o.TName)
 	for f, fv := range o.Fields {
-		if f == "Position" || ex[f] != "" {
-			continue
+		if f == "Position" || ex[f] != "" || seps[f] {
+			continue // separators lie between the items of the list they belong to
 		}
 		visit(fv, true)
 	}
 	sort.SliceStable(ms, func(i, j int) bool { return ms[i].k.Less(ms[j].k) })
 	return ms
+}
+
+// separatorFields: token-list fields paired with the node list declared before them.
+func (l *Lang) separatorFields(tname string) map[string]bool {
+	out := map[string]bool{}
+	for _, sl := range l.slots(tname) {
+		for _, f := range sl[1:] {
+			out[f] = true
+		}
+	}
+	return out
 }
 
 // boundary key of a position argument
@@ -1062,48 +1124,53 @@ func (l *Lang) PosSpan(shapes map[string]*Shape) *report.RuleResult {
 	return res
 }
 
+func keyMatch(k, b Key) bool { return k.I == b.I && (k.J == 0 || b.J == 0 || k.J == b.J) }
+
+// checkSpan: the start boundary must be the first member that is not known to
+// be nil on this path, the end boundary the last such member. A member whose
+// nil-ness the path says nothing about may be present, so a boundary that
+// skips it is wrong for those runs. Possibly-empty lists at a boundary follow
+// the documented -1 convention and may be skipped or used.
 func (l *Lang) checkSpan(posv PosV, ms []member) string {
 	start, okS := l.boundKey(posv.Args[0], false)
 	end, okE := l.boundKey(posv.Args[len(posv.Args)-1], true)
 	if !okS || !okE {
 		return ""
 	}
-	// acceptable starts: members up to and including the first certain one
-	okStart := false
-	var firstCertain *member
-	for i := range ms {
-		if ms[i].k.I == start.I {
-			okStart = true
+	isList := func(m member) bool {
+		if sy, ok := m.v.(Sym); ok && sy.Member == "list" {
+			return true
 		}
-		if ms[i].certain {
-			firstCertain = &ms[i]
+		_, ok := m.v.(ListV)
+		return ok
+	}
+	okStart := false
+	for i := range ms {
+		if keyMatch(ms[i].k, start) {
+			okStart = true
 			break
 		}
+		if isList(ms[i]) && !ms[i].certain {
+			continue // an empty list contributes no position
+		}
+		return fmt.Sprintf("position starts at %s but %s, which precedes it, belongs to the node and is not known to be absent", start, ms[i].k)
 	}
 	if !okStart {
-		exp := ms[0].k
-		if firstCertain != nil {
-			exp = firstCertain.k
-		}
-		return fmt.Sprintf("position starts at %s but the node's first content is %s", start, exp)
+		return fmt.Sprintf("position starts at %s, which is not part of the node's content", start)
 	}
 	okEnd := false
-	var lastCertain *member
 	for i := len(ms) - 1; i >= 0; i-- {
-		if ms[i].k.I == end.I {
+		if keyMatch(ms[i].k, end) {
 			okEnd = true
-		}
-		if ms[i].certain {
-			lastCertain = &ms[i]
 			break
 		}
+		if isList(ms[i]) && !ms[i].certain {
+			continue
+		}
+		return fmt.Sprintf("position ends at %s but %s, which follows it, belongs to the node and is not known to be absent", end, ms[i].k)
 	}
 	if !okEnd {
-		exp := ms[len(ms)-1].k
-		if lastCertain != nil {
-			exp = lastCertain.k
-		}
-		return fmt.Sprintf("position ends at %s but the node's last content is %s", end, exp)
+		return fmt.Sprintf("position ends at %s, which is not part of the node's content", end)
 	}
 	return ""
 }
